@@ -28,10 +28,42 @@ Definition table_line : bytes :=
   let all := map (fun n => n2b (N.of_nat n)) (seq 0 256) in
   hex_of_bytes (map (fun c => match from_char c with Some v => n2b v | None => xff end) all) ++ sp ++ map to_char (map N.of_nat (seq 0 32)).
 
+(* ---- human-readable part: complete enumerations (kinds `c` and `r`) ---- *)
+(* all case patterns of the HRP; the k-th pattern has character i in upper case iff bit i of k is set *)
+Fixpoint patterns (h : bytes) : list bytes :=
+  match h with [] => [[]] | c :: r => flat_map (fun t => [to_lower c :: t; to_upper c :: t]) (patterns r) end.
+Definition res_name (r : ares address) : bytes := match r with AOk _ => "ok"%lb | AErr e => aerr_name e end.
+Definition accepted (s : bytes) : bool := existsb is_ok (four s).
+Fixpoint number_from {A} (k : N) (l : list A) : list (N * A) := match l with [] => [] | x :: r => (k, x) :: number_from (k + 1) r end.
+Definition case_line (s : bytes) : bytes :=
+  match rsplit x31 s with
+  | None => err "nosep"
+  | Some (h, d) =>
+      if Nat.ltb 8 (length h) then err "hrplen" else
+      let vars := flat_map (fun kp => [(dec_of_N (fst kp) ++ "l"%lb, snd kp ++ [x31] ++ lower d); (dec_of_N (fst kp) ++ "u"%lb, snd kp ++ [x31] ++ upper d)])
+                           (number_from 0 (patterns h)) in
+      let oks := filter (fun v => accepted (snd v)) vars in
+      "orig=["%lb ++ show_res (parse_str s) ++ "] n="%lb ++ dec_of_N (N.of_nat (length vars)) ++ " acc="%lb ++ dec_of_N (N.of_nat (length oks))
+        ++ " ok="%lb ++ join ","%lb (map fst oks) ++ " fs="%lb ++ join ";"%lb (map (fun v => res_name (parse_str (snd v))) vars) end.
+
+(* the characters tried in the HRP: letters of both cases, digits (the separator among them) and punctuation *)
+Definition hrp_alphabet : bytes := "abcdefghijklmnopqrstuvwxyz0123456789ABCDEFGHIJKLMNOPQRSTUVWXYZ-_.!"%lb.
+Definition others_hrp (c : byte) : bytes := filter (fun x => negb (byte_eqb x c)) hrp_alphabet.
+Definition batch_hrp (s : bytes) (i j : nat) : list bytes :=
+  let ci := nth i s x00 in let cj := nth j s x00 in
+  if Nat.eqb i j then map (fun a => set_nth i a s) (others_hrp ci)
+  else flat_map (fun a => map (fun b => set_nth j b (set_nth i a s)) (others_hrp cj)) (others_hrp ci).
+Definition is_mixed (r : ares address) : bool :=
+  match r with AErr (ABech32 EMixedCase) | AErr (ABlech32 EMixedCase) | AErr (ABech32 EHrpMixedCase) | AErr (ABlech32 EHrpMixedCase) => true | _ => false end.
+(* rolling hash of the FromStr results of all strings, in order: (h * 131 + byte) mod 2^32 over each result text followed by a newline *)
+Definition hash_step (h : N) (b : byte) : N := (h * 131 + b2n b) mod 4294967296.
+Definition hash_res (h : N) (r : ares address) : N := fold_left hash_step (show_res r ++ [x0a]) h.
+Fixpoint first_some {A} (p : A -> bool) (l : list A) : option A := match l with [] => None | x :: r => if p x then Some x else first_some p r end.
+
 Definition run (args : list bytes) : bytes :=
   match args with
   | [k] => if bytes_eqb k "t"%lb then table_line else err "args"
-  | [k; s] => if bytes_eqb k "s"%lb then show_four s else err "args"
+  | [k; s] => if bytes_eqb k "s"%lb then show_four s else if bytes_eqb k "c"%lb then case_line s else err "args"
   | [k; s; es] =>
       if bytes_eqb k "m"%lb then
         match all_some (map parse_edit (split_on x2c es [])) with
@@ -48,6 +80,17 @@ Definition run (args : list bytes) : bytes :=
             let ck := count (fun r4 => match r4 with r :: _ => is_cksum r | [] => false end) rs 0 in
             "orig=["%lb ++ show_res (parse_str s) ++ "] n="%lb ++ dec_of_N (N.of_nat (length ms)) ++ " acc="%lb ++ dec_of_N acc
               ++ " cksum="%lb ++ dec_of_N ck
+        | _, _ => err "pos" end
+      else if bytes_eqb k "r"%lb then
+        match N_of_dec a, N_of_dec b with
+        | Some i, Some j =>
+            if Nat.leb (length s) (N.to_nat i) || Nat.leb (length s) (N.to_nat j) then err "pos" else
+            let ms := batch_hrp s (N.to_nat i) (N.to_nat j) in
+            let fs := map parse_str ms in
+            let acc := count accepted ms 0 in
+            "orig=["%lb ++ show_res (parse_str s) ++ "] n="%lb ++ dec_of_N (N.of_nat (length ms)) ++ " acc="%lb ++ dec_of_N acc
+              ++ " mix="%lb ++ dec_of_N (count is_mixed fs 0) ++ " h="%lb ++ dec_of_N (fold_left hash_res fs 0)
+              ++ " first="%lb ++ match first_some accepted ms with Some m => m | None => "-"%lb end
         | _, _ => err "pos" end
       else err "args"
   | _ => err "args" end.
